@@ -403,11 +403,78 @@ func checkHLoop(h HLoop, c *vcommon.Ctx) *vcommon.Failure {
 	return nil
 }
 
+// ---------- trampolines: the only frame that repeats is funcall / apply itself ----------
+
+type Tramp struct {
+	K     int    `json:"k"`
+	Mult  int    `json:"mult"`
+	Via   string `json:"via"`   // funcall | apply | mixed
+	Inner string `json:"inner"` // eliminating wrapper around the tail call
+	Keep  bool   `json:"keep"`  // closures also escape into a list and are called afterwards
+}
+
+func genTramp() *rapid.Generator[Tramp] {
+	return rapid.Custom(func(t *rapid.T) Tramp {
+		return Tramp{K: rapid.IntRange(4, 25).Draw(t, "k"), Mult: 10,
+			Via:   rapid.SampledFrom([]string{"funcall", "apply", "mixed"}).Draw(t, "via"),
+			Inner: rapid.SampledFrom([]string{"", "", "progn", "let", "if-then", "cond", "or"}).Draw(t, "inner"),
+			Keep:  rapid.IntRange(0, 2).Draw(t, "keep") == 0}
+	})
+}
+
+func (tr Tramp) source(n int) string {
+	call := "(funcall (mk (- n 1) (+ acc 1)))"
+	switch tr.Via {
+	case "apply":
+		call = "(apply (mk (- n 1) (+ acc 1)) ())"
+	case "mixed":
+		call = "(if (= (mod n 2) 0) (funcall (mk (- n 1) (+ acc 1))) (apply (mk (- n 1) (+ acc 1)) ()))"
+	}
+	if tr.Inner != "" {
+		call = wrap(tr.Inner, call)
+	}
+	keep := ""
+	if tr.Keep {
+		keep = "(set 'kept (cons (lambda () n) kept)) "
+	}
+	return fmt.Sprintf("(set 'kept ())\n(defun mk (n acc) (lambda () (probe 'h n) %s(if (<= n 0) acc %s)))\n(list (funcall (mk %d 0)) (map 'list (lambda (f) (funcall f)) kept))\n", keep, call, n)
+}
+
+func checkTramp(tr Tramp, c *vcommon.Ctx) *vcommon.Failure {
+	if tr.K < 1 || tr.Mult < 2 {
+		return nil
+	}
+	n1, n2 := tr.K, tr.K*tr.Mult
+	s1, s2 := tr.source(n1), tr.source(n2)
+	c.Class("via/" + tr.Via)
+	c.NonTrivial(s2)
+	c.Note(s2)
+	f, r1 := transparent(s1, c)
+	if f != nil {
+		return f
+	}
+	f, r2 := transparent(s2, c)
+	if f != nil {
+		return f
+	}
+	if r1.out.IsErr || r2.out.IsErr {
+		return vcommon.Failf("loop/error", "trampoline failed: %s / %s\n%s", outcome(r1.out), outcome(r2.out), s2)
+	}
+	if !strings.HasPrefix(r2.out.Canon, fmt.Sprintf("'(%d ", n2)) {
+		return vcommon.Failf("loop/value", "trampoline of %d turns returned %s\n%s", n2, r2.out.Canon, s2)
+	}
+	if r2.maxH != r1.maxH {
+		return vcommon.Failf("stack/grows", "a tail loop through %s with a fresh closure per turn grows the stack: max %d frames at n=%d, %d at n=%d\n%s", tr.Via, r1.maxH, n1, r2.maxH, n2, s2)
+	}
+	return nil
+}
+
 func TestCheck(t *testing.T) {
 	vcommon.Main(t, "C02",
 		vcommon.S("programs", 40000, 1000000, gen.GenProgram(4, 60, 6), checkProgram),
 		vcommon.S("loops", 10000, 400000, genLoop(false), checkLoop),
 		vcommon.S("blocked", 4000, 120000, genLoop(true), checkLoop),
+		vcommon.S("trampoline", 3000, 80000, genTramp(), checkTramp),
 		vcommon.S("handler-depth", 2000, 50000, genHLoop(), checkHLoop),
 	)
 }
